@@ -21,6 +21,7 @@ A check module (checks/cNN.py) provides
 """
 
 import argparse
+import gc
 import concurrent.futures as cf
 from concurrent.futures.process import BrokenProcessPool
 import subprocess
@@ -277,6 +278,7 @@ def _worker_inner(cid, tier, seed, widx, rnd, excluded, examples):
 
     strat = mod.strategy(tier)
     shrink_budget = getattr(mod, "SHRINK_BUDGET", 400)
+    ncases = [0]
     shrink_seconds = float(os.environ.get("VERIF_SHRINK_SECONDS", "45"))
 
     @hypothesis.seed(derive_seed(seed, cid, widx, rnd))
@@ -301,6 +303,9 @@ def _worker_inner(cid, tier, seed, widx, rnd, excluded, examples):
                 return
         _crash_note(widx, case)
         out, known, jcase = judge(mod, case, open_findings)
+        ncases[0] += 1
+        if ncases[0] % 100 == 0:
+            gc.collect()  # buffers of earlier cases held by reference cycles
         if out.ok or known:
             stats.add(case, out, known)
             return
